@@ -111,6 +111,9 @@ def replay_doc(ctx, doc, n, genes=None):
     m = make_metric(cls, wts)
     if doc["inclass"] != "table":
         bad = invalid_input(doc["inclass"])
+        if doc["inclass"] == "no_tcr_column":
+            import pandas as pd
+            bad = [bad, bad.iloc[:1], bad.iloc[:0], pd.DataFrame(), pd.DataFrame(dict(cdr3b=["CASSF"]))][n % 5]        # any number of rows
         ctx.case(dict(cls=cls, invalid=doc["inclass"]), nontrivial=True)
         good = make_table([[1, [1, 0, 4], 1, [1, 0, 4]]], 0)
         for desc, call in ((f"calc_cdist_matrix({doc['inclass']}, table)", lambda: m.calc_cdist_matrix(bad, good)),
